@@ -936,6 +936,18 @@ def run_clauses(rr):
             msg = check_leaders_P([s["obj"] for s in la], N)
             if msg:
                 out.append("generation %d: %s" % (g, msg))
+    # state invariant of the personal-best rule on every particle the run recorded (also the two GA children PSOGA adds per
+    # generation): its personal best is its own evaluated position, or an older best that dominates that position
+    for i in p.individuals:
+        bc, bv = i.features.get("best_cost"), i.features.get("best_vector")
+        if bc is None or bv is None or not i.costs_signed or len(bc) != len(i.costs_signed):
+            continue
+        own = skey(bc) == skey(i.costs_signed) and [float(t) for t in bv] == [float(t) for t in i.vector]
+        if not own and spec_pareto(bc[:-1], i.costs_signed[:-1], bc[-1], i.costs_signed[-1]) != 1:
+            out.append("generation %r: the recorded particle at %r with signed costs %r carries the personal best %r at %r, which is "
+                       "neither its own position nor a best that dominates it" % (i.population_id, list(i.vector), list(i.costs_signed),
+                                                                                list(bc), list(bv)))
+            break
     for i in p.individuals:
         if i.population_id == 0 and (len(i.vector) != len(bounds) or any(
                 not (lb - 1e-12 - 1e-15 * abs(lb) <= t <= ub + 1e-12 + 1e-15 * abs(ub)) for t, (lb, ub) in zip(i.vector, bounds))):
